@@ -89,13 +89,38 @@ DEFAULT_POINTS = [
 ]
 
 
-def sym_points(syms):
-    """Deterministic generic sample assignments for a set of symbols (('p', name) / ('r', n))."""
+def _literals_of(expr, limit=3):
+    """Numeric literal values written in a surface expression (candidates for roots such as (q0 - 1)**7)."""
+    from .model import ast as A
+    out = []
+    if isinstance(expr, A.Flat):
+        for p in A.walk_prims(expr):
+            if isinstance(p, A.Num) and p.kind in ("int", "float"):
+                try:
+                    v = float(p.text)
+                except ValueError:
+                    continue
+                if 0 < abs(v) < 1e6 and v not in out:
+                    out.append(v)
+    return out[:limit]
+
+
+def sym_points(syms, rsym=None):
+    """Deterministic sample assignments for a set of symbols (('p', name) / ('r', n)): three generic points, one with all
+    symbols close to each other near 1, and points close to the literals written in the expression (values at which a
+    rearranged -- expanded, 'simplified' -- formula loses accuracy although the written one does not)."""
     order = sorted(syms, key=lambda s: (s[0], str(s[1])))
     pts = []
     for row in DEFAULT_POINTS:
         pts.append({s: V("real", row[i % len(row)] + N.mpf(i // len(row)) / 3, 0) for i, s in enumerate(order)})
-    return pts
+    pts.append({s: V("real", N.mpf("1.004") + N.mpf(i) / 1000, 0) for i, s in enumerate(order)})
+    # measurement / parameter values are doubles: the reference must see exactly the value the function receives
+    def _dbl(pt):
+        return {s: V("real", N.mpf(float(v.v)), 0) for s, v in pt.items()}
+    if rsym is not None and getattr(rsym, "expr", None) is not None:
+        for L in _literals_of(rsym.expr):
+            pts.append({s: V("real", N.mpf(L) + N.mpf("0.004") + N.mpf(7 * i) / 10000, 0) for i, s in enumerate(order)})
+    return [_dbl(pt) for pt in pts]
 
 
 def sym_matches(rsym, act_fn, rtol=1e-9):
@@ -103,7 +128,8 @@ def sym_matches(rsym, act_fn, rtol=1e-9):
     (beta maps ('p', name)/('r', n) -> V).  Returns None | Mismatch; raises IllConditioned
     if no sample point is usable."""
     usable = 0
-    for beta in sym_points(rsym.syms):
+    cond = N.mpf(rtol) / 100
+    for beta in sym_points(rsym.syms, rsym):
         try:
             ref = rsym.eval(beta)
         except OutOfDomain:
@@ -111,7 +137,7 @@ def sym_matches(rsym, act_fn, rtol=1e-9):
         if not isinstance(ref, V):
             continue
         # conditioning at the looser tolerance
-        if ref.kind != "int" and (ref.v == 0 or ref.err > N.mpf("1e-11") * ref.mag):
+        if ref.kind != "int" and (ref.v == 0 or ref.err > cond * ref.mag):
             continue
         try:
             act = act_fn(beta)
